@@ -1,0 +1,197 @@
+// This Source Code Form is subject to the terms of the Mozilla Public
+// License, v. 2.0. If a copy of the MPL was not distributed with this
+// file, You can obtain one at http://mozilla.org/MPL/2.0/.
+//
+// Copyright (c) DUSK NETWORK. All rights reserved.
+
+//! Verification hooks for the composer (feature `verif`, off by default).
+//!
+//! Purely additive observation and fault-injection seams used by the external
+//! bounded-exhaustive verification harness. Nothing here is compiled without
+//! the `verif` feature.
+
+use alloc::vec::Vec;
+use core::cell::RefCell;
+
+use dusk_bls12_381::BlsScalar;
+use dusk_jubjub::{JubJubAffine, JubJubExtended};
+use hashbrown::HashMap;
+
+use super::{
+    Composer, Constraint, Selector, WiredWitness, Witness, WitnessPoint,
+};
+use crate::error::Error;
+
+/// One emitted gate: the eleven selectors in the order
+/// `q_m, q_l, q_r, q_o, q_f, q_c, q_arith, q_range, q_logic, q_fixed, q_var`
+/// and the four wire witness indices `a, b, c, d`.
+#[derive(Debug, Clone, PartialEq, Eq)]
+pub struct GateRow {
+    /// Selector values.
+    pub q: [BlsScalar; 11],
+    /// Wire witness indices.
+    pub w: [usize; 4],
+}
+
+/// Snapshot of everything a composer has emitted so far.
+#[derive(Debug, Clone, PartialEq, Eq)]
+pub struct Snapshot {
+    /// Gates in row order.
+    pub gates: Vec<GateRow>,
+    /// Witness table.
+    pub witnesses: Vec<BlsScalar>,
+    /// Public-input rows `(row, value)` in ascending row order.
+    pub public_inputs: Vec<(usize, BlsScalar)>,
+}
+
+std::thread_local! {
+    static WITNESS_SCRIPT: RefCell<HashMap<usize, BlsScalar>> =
+        RefCell::new(HashMap::new());
+}
+
+/// Install an append-time witness script for the current thread: the witness
+/// allocated with ordinal (index) `k` receives `script[k]` instead of the
+/// value the caller supplied. An empty script restores normal behaviour.
+pub fn set_witness_script(script: &[(usize, BlsScalar)]) {
+    WITNESS_SCRIPT.with(|s| {
+        let mut s = s.borrow_mut();
+        s.clear();
+        for (k, v) in script {
+            s.insert(*k, *v);
+        }
+    });
+}
+
+pub(super) fn scripted_witness(ordinal: usize, value: BlsScalar) -> BlsScalar {
+    WITNESS_SCRIPT.with(|s| {
+        let s = s.borrow();
+        if s.is_empty() {
+            value
+        } else {
+            s.get(&ordinal).copied().unwrap_or(value)
+        }
+    })
+}
+
+impl Composer {
+    /// Snapshot of the emitted gates, witness table and public-input rows.
+    pub fn verif_snapshot(&self) -> Snapshot {
+        let gates = self
+            .constraints
+            .iter()
+            .map(|g| GateRow {
+                q: [
+                    g.q_m,
+                    g.q_l,
+                    g.q_r,
+                    g.q_o,
+                    g.q_f,
+                    g.q_c,
+                    g.q_arith,
+                    g.q_range,
+                    g.q_logic,
+                    g.q_fixed_group_add,
+                    g.q_variable_group_add,
+                ],
+                w: [g.a.index(), g.b.index(), g.c.index(), g.d.index()],
+            })
+            .collect();
+        let mut public_inputs: Vec<(usize, BlsScalar)> =
+            self.public_inputs.iter().map(|(k, v)| (*k, *v)).collect();
+        public_inputs.sort_by_key(|(k, _)| *k);
+        Snapshot {
+            gates,
+            witnesses: self.witnesses.clone(),
+            public_inputs,
+        }
+    }
+
+    /// Number of allocated witnesses.
+    pub fn verif_witness_count(&self) -> usize {
+        self.witnesses.len()
+    }
+
+    /// Handle for an already allocated witness index.
+    pub fn verif_witness(&self, index: usize) -> Witness {
+        assert!(index < self.witnesses.len());
+        Witness::new(index)
+    }
+
+    /// Overwrite the value of an allocated witness, leaving the layout
+    /// untouched.
+    pub fn verif_set_witness(&mut self, w: Witness, value: BlsScalar) {
+        self.witnesses[w.index()] = value;
+    }
+
+    /// Append a raw row with arbitrary (including internal) selectors, in the
+    /// order of [`GateRow::q`].
+    pub fn verif_raw_gate(
+        &mut self,
+        q: [BlsScalar; 11],
+        public_input: Option<BlsScalar>,
+        w: [Witness; 4],
+    ) {
+        let mut c = Constraint::new()
+            .set(Selector::Multiplication, q[0])
+            .set(Selector::Left, q[1])
+            .set(Selector::Right, q[2])
+            .set(Selector::Output, q[3])
+            .set(Selector::Fourth, q[4])
+            .set(Selector::Constant, q[5])
+            .set(Selector::Arithmetic, q[6])
+            .set(Selector::Range, q[7])
+            .set(Selector::Logic, q[8])
+            .set(Selector::GroupAddFixedBase, q[9])
+            .set(Selector::GroupAddVariableBase, q[10]);
+        if let Some(pi) = public_input {
+            c = c.public(pi);
+        }
+        c.set_witness(WiredWitness::A, w[0]);
+        c.set_witness(WiredWitness::B, w[1]);
+        c.set_witness(WiredWitness::C, w[2]);
+        c.set_witness(WiredWitness::D, w[3]);
+        self.append_custom_gate(c);
+    }
+
+    /// Runtime-width seam over the range check.
+    pub fn verif_range_check(&mut self, w: Witness, num_bits: usize) {
+        assert!(num_bits <= 256);
+        self.range_check(w, num_bits);
+    }
+
+    /// Untyped point from two witnesses.
+    pub fn verif_point(&self, x: Witness, y: Witness) -> WitnessPoint {
+        WitnessPoint::new(x, y)
+    }
+
+    /// Seam over the untyped addition gates.
+    pub fn verif_add_point_gates(
+        &mut self,
+        a: WitnessPoint,
+        b: WitnessPoint,
+    ) -> WitnessPoint {
+        self.add_point_gates(a, b)
+    }
+
+    /// Seam over the torsion-free gates with a prover-chosen auxiliary point
+    /// given by raw affine coordinates.
+    pub fn verif_assert_torsion_free_gates(
+        &mut self,
+        point: WitnessPoint,
+        q_u: BlsScalar,
+        q_v: BlsScalar,
+    ) {
+        let q = JubJubAffine::from_raw_unchecked(q_u, q_v);
+        self.assert_torsion_free_gates(point, q);
+    }
+
+    /// Seam over the fixed-base widget with a prover-chosen digit vector.
+    pub fn verif_fixed_base_signed_digits(
+        &mut self,
+        jubjub: Witness,
+        generator: JubJubExtended,
+        digits: &[i8; 256],
+    ) -> Result<WitnessPoint, Error> {
+        self.append_fixed_base_signed_digits(jubjub, generator, digits)
+    }
+}
